@@ -260,6 +260,21 @@ def parse_resp(line):
 # independent writer of the documented layout + round-trip oracle (search / probe; no Lean model here)
 # ------------------------------------------------------------------------------------------------
 
+_published = []
+
+
+def published_common():
+    """FROZEN published table (`mdl_isotope` per Z) read from Spec/PackLayout.lean — not from /repo; `common[z]` of the
+    format description is `published[z] - 16`"""
+    if not _published:
+        import re
+        src = core.module_path('ChythonModel.Spec.PackLayout').read_text()
+        m = re.search(r'def publishedCommonIsotopes : List Nat :=\s*\[([^\]]*)\]', src)
+        _published.extend(int(x) - 16 for x in m.group(1).split(','))
+        assert len(_published) == 119
+    return _published
+
+
 def half_trunc_bits(x):
     """spec of `to half precision`: |x| truncated toward zero onto the binary16 grid, as 16 bits; None outside the half range"""
     if x == 0:
@@ -378,11 +393,21 @@ def struct_limits(mol):
     return True
 
 
+def public_unpackers():
+    """every public way to turn pack bytes back into a molecule"""
+    import chython
+    from chython import MoleculeContainer
+    import chython.containers as cont
+    return [('MoleculeContainer.unpack', MoleculeContainer.unpack), ('MoleculeContainer.unpach', MoleculeContainer.unpach),
+            ('chython.unpack', chython.unpack), ('chython.unpach', chython.unpach),
+            ('chython.containers.unpack', cont.unpack), ('chython.containers.unpach', cont.unpach)]
+
+
 def oracle_mol(mol, common=None):
     """property oracle on the real code. Returns list of (signature, what)."""
     from chython import MoleculeContainer
     setup()
-    common = common or gen_packtables.tables()[0]
+    common = published_common()   # the published table, frozen in /verif: never the code's own table
     out = []
     try:
         data = mol.pack(compressed=False)
@@ -417,6 +442,39 @@ def oracle_mol(mol, common=None):
         d = diff_mols(mol, u)
         if d:
             out.append(('C10/roundtrip/' + d[0], d[1]))
+    # the other public writers give the same bytes
+    try:
+        if zlib.decompress(bytes(mol)) != data or mol.pach(compressed=False) != data or zlib.decompress(mol.pach()) != data:
+            out.append(('C10/entry-point/pach-or-bytes', 'bytes(mol) / mol.pach() differ from mol.pack()'))
+    except Exception as e:
+        out.append(('C10/entry-point/pach-or-bytes', f'bytes(mol) / mol.pach() raised {e!r}'))
+    # stable layout: bytes written from the format description alone (a pack published earlier), format versions 2 and 0,
+    # must decode to this molecule through every public reader, compressed or not
+    if len(mol._atoms) <= 400:
+        try:
+            spec2 = spec_bytes(mol, common)
+        except OverflowError:
+            spec2 = None
+        if spec2 is not None:
+            for ver, sb in ((2, spec2), (0, to_v0(mol, spec2))):
+                for nm, fn in public_unpackers():
+                    for compressed in (False, True):
+                        try:
+                            u = fn(zlib.compress(sb, 9) if compressed else sb, compressed=compressed)
+                        except Exception as e:
+                            out.append((f'C10/published-v{ver}/{nm}/raises', f'{nm}(compressed={compressed}) of the documented version-{ver} '
+                                        f'bytes raised {e!r}'))
+                            break
+                        d = diff_mols(mol, u) if type(u).__name__ == 'MoleculeContainer' else ('type', f'returned {type(u).__name__}')
+                        if d:
+                            out.append((f'C10/published-v{ver}/{nm}/{d[0]}', f'{nm}(compressed={compressed}) of the documented '
+                                        f'version-{ver} bytes: {d[1]}'))
+                            break
+                try:
+                    if MoleculeContainer.pack_len(sb, compressed=False) != len(mol._atoms):
+                        out.append((f'C10/published-v{ver}/pack_len', 'pack_len of the documented bytes is wrong'))
+                except Exception as e:
+                    out.append((f'C10/published-v{ver}/pack_len', f'pack_len raised {e!r}'))
     return out
 
 
@@ -512,6 +570,17 @@ def gen_limits(ctx):
         atoms = [{'n': n, 'z': 6, 'x': x, 'y': y} for n, x, y in zip(nums, half_coords(rng, nb + 1), half_coords(rng, nb + 1))]
         bonds = [(nums[rng.randrange(0, k + 1)], nums[k + 1], rng.choice([1, 2, 3, 4, 8])) for k in range(nb)]
         yield f'bonds[{nb}]', build(atoms, bonds)
+    # every bond order (1,2,3,4,8) at every position of the order stream: 40 = lcm(8,5) bonds, emission order = chain order,
+    # order at position i is ORD[(i + k) % 5]; k = 0..4 puts every order on every position mod 8 and mod 5
+    ORD = [1, 2, 3, 4, 8]
+    for k in range(5):
+        for nb in (40, 43):
+            atoms = [{'n': i + 1, 'z': 6} for i in range(nb + 1)]
+            yield f'orders[{k},{nb}]', build(atoms, [(i + 1, i + 2, ORD[(i + k) % 5]) for i in range(nb)])
+    # all bonds of one order, every length 1..17 (final flush in every phase with every code)
+    for o in ORD:
+        for nb in range(1, 18):
+            yield f'uniform[{o},{nb}]', build([{'n': i + 1, 'z': 6} for i in range(nb + 1)], [(i + 1, i + 2, o) for i in range(nb)])
     # degree 0..15 hubs, atom numbers at the limits
     for deg in list(range(0, 16)):
         hub = rng.choice([1, 255, 256, 4095, rng.randint(257, 4094)])
@@ -591,7 +660,10 @@ def gen_real(ctx):
     for name, m in mols:
         yield name, m
         try:
-            r, _ = molgen.renumber(rng, m, lo=1, hi=rng.choice([4095, 4095, 300, None]))
+            if name.startswith('stereo:'):   # terminals and atom numbers above 255 / 2048 in every cis/trans record
+                r, _ = molgen.renumber(rng, m, lo=3000, hi=4095)
+            else:
+                r, _ = molgen.renumber(rng, m, lo=1, hi=rng.choice([4095, 4095, 300, None]))
         except Exception:
             continue
         # coordinates over the half range on the renumbered copy
@@ -754,6 +826,13 @@ def corr_molecules(ctx):
         for name, mol in gen(ctx):
             add_mol_cases(b, name, mol, sample=(k % 97 == 0))
             k += 1
+            # the property oracle itself (published layout with the FROZEN isotope table, every public reader/writer, v2 and v0
+            # documented bytes) runs on every limit molecule and every stereo / hand-made molecule, not only after a break
+            if (gen is gen_limits or name.startswith(('stereo:', 'hand:'))) and in_limits(mol):
+                ctx.count(('oracle', name, k))
+                ctx.dist('stream:property-oracle')
+                for sig, what in oracle_mol(mol):
+                    ctx.fail(sig, what, {'kind': 'mol', 'name': name, 'mol': mol_to_json(mol)})
             if len(b.lines) > 3000:
                 b.run()
     b.run()
@@ -864,6 +943,8 @@ def corr_reactions(ctx):
                             _state['suspects'].append(sus)
                             return f'reaction unpack {shape}: {dd}'
         b.add('rxn-unpack', 'runpack', data, c_unpack, sum(shape) > 0)
+        if sum(shape) <= 12:
+            add_unpach_case(b, 'dispatch-rxn', bytes(data), f'reaction {shape}')
         try:
             rl = ('ok', [v for side in ReactionContainer.pack_len(bytes(data), compressed=False) for v in [len(side)] + list(side)])
         except Exception as e:
@@ -1049,6 +1130,44 @@ def v0_differs(m, d0, d2):
     return None
 
 
+def add_unpach_case(b, stream, data, tag):
+    """model `unpach` vs the real public dispatcher `chython.unpack` (uncompressed) on one byte string"""
+    import chython
+    try:
+        v = chython.unpack(bytes(data), compressed=False)
+        if type(v).__name__ == 'MoleculeContainer':
+            real = ('ok', 0, [atom_fields(n, a, v._bonds[n]) for n, a in v._atoms.items()])
+        else:
+            real = ('ok', 1, [[[atom_fields(n, a, m._bonds[n]) for n, a in m._atoms.items()] for m in side]
+                              for side in (v.reactants, v.reagents, v.products)])
+    except Exception as e:
+        real = ('err', err_kind(e), None)
+
+    def c(res, real=real, tag=tag):
+        if res[0] != real[0]:
+            return f'chython.unpack outcome [{tag}]: model {res[0]} {res[1] if res[0] == "err" else ""} real {real[:2]}'
+        if res[0] != 'ok':
+            return None
+        it = iter(res[1])
+        kind = next(it)
+        if kind != real[1]:
+            return f'chython.unpack [{tag}]: model returns {"reaction" if kind else "molecule"}, real {"reaction" if real[1] else "molecule"}'
+        if kind == 0:
+            d = parse_decoded(it)
+            return diff_decoded({'size': 0, 'atoms': d['atoms'], 'ct': []}, {'size': 0, 'atoms': real[2], 'ct': []}, bond_stereo=False)
+        for side in real[2]:
+            k = next(it)
+            if k != len(side):
+                return f'chython.unpack [{tag}]: role sizes differ (model {k}, real {len(side)})'
+            for real_atoms in side:
+                d = parse_decoded(it)
+                dd = diff_decoded({'size': 0, 'atoms': d['atoms'], 'ct': []}, {'size': 0, 'atoms': real_atoms, 'ct': []}, bond_stereo=False)
+                if dd:
+                    return f'chython.unpack [{tag}]: {dd}'
+        return None
+    b.add(stream, 'unpach', list(data), c)
+
+
 def corr_synthetic(ctx):
     """decoder-side streams on byte strings the encoder cannot or does not produce today:
     version-0 packs, large cis/trans counts, arbitrary atom-record bytes."""
@@ -1056,8 +1175,10 @@ def corr_synthetic(ctx):
     from .. import molgen
     rng = ctx.rng
     b = Batch(ctx)
-    mols = [m for _, m in gen_limits(ctx)][:400:3] + [m for s in STEREO_SMILES if (m := molgen.parse(s))]
-    mols += [m for _, m in molgen.corpus(rng, 30 if ctx.quick else 300)]
+    sensible = [m for s in STEREO_SMILES if (m := molgen.parse(s))] + [m for _, m in molgen.handmade()]
+    sensible += [m for _, m in molgen.corpus(rng, 30 if ctx.quick else 300)]
+    mols = [m for _, m in gen_limits(ctx)][:400:3] + sensible
+    sens_ids = {id(m) for m in sensible}
     for m in mols:
         rp = real_pack(m)
         if rp[0] != 'ok':
@@ -1079,7 +1200,12 @@ def corr_synthetic(ctx):
                 if dd:
                     return f'v0 unpack: {dd} [{d0.hex()[:80]}]'
         b.add('v0-unpack', 'unpack', list(d0), c)
+        if id(m) in sens_ids:
+            add_unpach_case(b, 'dispatch-v2', bytes(rp[1]), 'v2 molecule')
+            add_unpach_case(b, 'dispatch-v0', d0, 'v0 molecule')
         ctx.dist('v0-bonds%%5=%d' % ((sum(len(x) for x in m._bonds.values()) // 2) % 5))
+    for d in (b'', bytes([3, 0, 16, 0]), bytes([255]), bytes([1]), bytes([1, 0, 0, 0]), bytes([0]), bytes([2])):
+        add_unpach_case(b, 'dispatch-malformed', d, 'malformed ' + d.hex())
     # large cis/trans counts (> 255 records) on a bond-free pack + random records
     base = build([{'n': 77, 'z': 6}, {'n': 1234, 'z': 8}], [])
     raw = bytes(base.pack(compressed=False))
@@ -1161,7 +1287,7 @@ def corr_malformed(ctx):
 
 def correspond(ctx):
     setup()
-    ctx.cov['programs'] = 9  # mol pack/unpack/pack_len, rxn pack/unpack/pack_len, _unpack_v0v2.unpack, double_to_float16, double_from_bytes
+    ctx.cov['programs'] = 14  # mol pack/unpack/pack_len, rxn pack/unpack/pack_len, _unpack_v0v2.unpack, double_to_float16, double_from_bytes, chython.unpack/unpach, Molecule/ReactionContainer.unpach, pach/__bytes__
     if not ctx.build_ok:
         ctx.notes.append('Lean build failed: driver streams skipped; running the property oracle directly')
         return
@@ -1184,6 +1310,25 @@ def oracle_rxn(rxn, roles):
         ln = ReactionContainer.pack_len(data, compressed=False)
     except Exception as e:
         return [('C10/rxn/raises/' + type(e).__name__, f'reaction pack/unpack/pack_len raised {e!r} for role sizes {[len(s) for s in roles]}')]
+    import chython
+    import chython.containers as cont
+    try:
+        if zlib.decompress(bytes(rxn)) != data or rxn.pach(compressed=False) != data:
+            out.append(('C10/entry-point/pach-or-bytes', 'bytes(reaction) / reaction.pach() differ from reaction.pack()'))
+    except Exception as e:
+        out.append(('C10/entry-point/pach-or-bytes', f'bytes(reaction) / pach raised {e!r}'))
+    for nm, fn in (('ReactionContainer.unpach', ReactionContainer.unpach), ('chython.unpack', chython.unpack),
+                   ('chython.unpach', chython.unpach), ('chython.containers.unpack', cont.unpack)):
+        for compressed in (False, True):
+            try:
+                v = fn(zlib.compress(data, 9) if compressed else data, compressed=compressed)
+            except Exception as e:
+                out.append((f'C10/rxn/{nm}/raises', f'{nm}(compressed={compressed}) of a reaction pack raised {e!r}'))
+                break
+            if type(v).__name__ != 'ReactionContainer' or [len(x) for x in (v.reactants, v.reagents, v.products)] != [len(s_) for s_ in roles] \
+                    or any(diff_mols(a, b_) for sa, sb in zip(roles, (v.reactants, v.reagents, v.products)) for a, b_ in zip(sa, sb)):
+                out.append((f'C10/rxn/{nm}/differs', f'{nm}(compressed={compressed}) does not return the packed reaction'))
+                break
     want = tuple([len(m._atoms) for m in side] for side in roles)
     if tuple(list(x) for x in ln) != want:
         out.append(('C10/rxn/pack_len', f'pack_len {ln} != {want}'))
